@@ -236,8 +236,28 @@ def has_predef_elsif(items):
     return False
 
 
+def has_usage_before_paren(items):
+    """KnownClass objectlike-usage-paren: a usage written without arguments that is followed (white space and comments
+    aside) by an opening parenthesis -- the parser reads everything up to the matching `)`, directives included, as the
+    usage's actual arguments, whatever the macro's definition says"""
+    for i, it in enumerate(items):
+        if it.kind == "usage" and it.args is None:
+            j = i + 1
+            while j < len(items) and items[j].kind in ("ws", "cmt"):
+                j += 1
+            if j < len(items) and items[j].kind == "tok" and items[j].text.startswith("("):
+                return True
+        if it.kind == "cond":
+            if has_usage_before_paren(it.body) or any(has_usage_before_paren(b) for _, b, _ in it.elsifs) or \
+               (it.els is not None and has_usage_before_paren(it.els)):
+                return True
+    return False
+
+
 def in_D4(pc):
-    return pc.meta is not None and any(has_predef_elsif(f.items) for f in pc.meta)
+    """the known classes in which the reference evaluation and the implementation are known to differ (listed findings D4 and
+    objectlike-usage-paren)"""
+    return pc.meta is not None and any(has_predef_elsif(f.items) or has_usage_before_paren(f.items) for f in pc.meta)
 
 
 def token_oracle(pc, res):
